@@ -63,7 +63,7 @@ LongCases == \A s \in LongStrings : LET n == Len(s) IN
     /\ Emit(Case("Len", s, <<>>, <<n>>))
     /\ Emit(Case("Rev", s, <<>>, RevDef(s)))
     /\ \A st \in {0, 21, n - 2, n - 1, n} : \A ln \in {-1, 1, 3, n} : Emit(Case("Sub", s, <<st, ln>>, SubDef(s, st, ln)))
-    /\ \A st \in {0, 3, n - 1} : \A en \in {0, 2, n - 3} : \A multi \in {FALSE, TRUE} :
+    /\ \A st \in {0, 2, 3, n - 1} : \A en \in {0, 1, 2, 7, 8, 9, 15, 16, 17, 31, 32, 33, n - 3} : \A multi \in {FALSE, TRUE} :
             Emit(Case("Mask", s, <<st, en, IF multi THEN 1 ELSE 0>>, MaskDef(s, st, en, multi)))
     /\ \A lim \in {n - 3, n - 2, n - 1, n, n + 1, n + 2} : Emit(Case("SubByDisplay", s, <<lim>>, DisplayDef(s, lim)))
     /\ \A w \in Widths : Emit(Case("RemoveRunes", s, <<w>>, RemoveDef(s, w)))
